@@ -28,6 +28,7 @@ class Ctx:
         self.nontrivial = 0
         self.sigs = set()
         self.samples = []
+        self._sample_keys = []
         self.violations = []
         self.violations_total = 0
         self._per_kind = {}
@@ -63,8 +64,11 @@ class Ctx:
             self.nontrivial += weight
             if sig is not None:
                 self.sigs.add(sig if isinstance(sig, str) else json.dumps(sig, sort_keys=True, default=str))
-            if len(self.samples) < 3:
-                self.samples.append(sample if sample is not None else case)
+            smp = sample if sample is not None else case
+            key = (smp.get("kind") or smp.get("fn") or smp.get("backend")) if isinstance(smp, dict) else None
+            if len(self.samples) < 6 and sum(1 for k, _ in self._sample_keys if k == key) < 2:
+                self._sample_keys.append((key, None))
+                self.samples.append(smp)
         for kind, detail in viols:
             self.violation(kind, detail, case)
 
